@@ -6,7 +6,7 @@ from checks import exec_common, exec_findings
 
 
 def run(ctx):
-    exec_common.run_property(ctx, "C02", ['crash', 'crash', 'init', 'respawn_crash'], 300, 3000, classify=exec_findings.classify)
+    exec_common.run_property(ctx, "C02", ['crash', 'crash_shutdown', 'init', 'respawn_crash'], 300, 3000, classify=exec_findings.classify)
 
 
 if __name__ == "__main__":
